@@ -120,8 +120,19 @@ package httpgen
 //@ emitted func convertProtovalidateError(err error) (r *sebufhttp.ValidationError)
 //@   ensures r != nil
 //@   loop 2 invariant i >= 1
+// URL binders (C02): each configured parameter is read from the URL under its own name, converted by the kind of
+// the message field, and the converted value - never anything else - is stored; an empty path value or a failed
+// conversion is reported, not skipped.
 //@ emitted func bindPathParams(r *nethttp.Request, msg proto.Message, params []PathParamConfig) (verr *sebufhttp.ValidationError)
+//@   modifies *
+//@   at-call convertStringToFieldValue requires from_url: 0 <= _i1 && _i1 < len(params) && arg0 == r.PathValue(params[_i1].URLParam) && arg0 != ""
+//@   at-call reflect.Set requires converted_value: count("convertStringToFieldValue") > old(count("convertStringToFieldValue")) && lastErrNil("convertStringToFieldValue") && arg1 == lastRetAs("convertStringToFieldValue", protoreflect.Value)
+//@   ensures accepted_means_all_present: verr == nil ==> (forall k int :: 0 <= k && k < len(params) ==> r.PathValue(params[k].URLParam) != "")
+//@   loop 1 invariant forall k int :: 0 <= k && k < _i1 ==> r.PathValue(params[k].URLParam) != ""
 //@ emitted func bindQueryParams(r *nethttp.Request, msg proto.Message, params []QueryParamConfig) (verr *sebufhttp.ValidationError)
+//@   modifies *
+//@   at-call reflect.Set requires converted_value: count("convertStringToFieldValue") > old(count("convertStringToFieldValue")) && lastErrNil("convertStringToFieldValue") && arg1 == lastRetAs("convertStringToFieldValue", protoreflect.Value)
+//@   at-call reflect.Append requires converted_value: count("convertStringToFieldValue") > old(count("convertStringToFieldValue")) && lastErrNil("convertStringToFieldValue") && arg0 == lastRetAs("convertStringToFieldValue", protoreflect.Value)
 //@ emitted func bindDataBasedOnContentType(r *nethttp.Request, toBind any) (err error)
 //@   modifies *
 //@   ensures one_decoder: (count("bindDataFromJSONRequest") - old(count("bindDataFromJSONRequest"))) + (count("bindDataFromBinaryRequest") - old(count("bindDataFromBinaryRequest"))) == 1
